@@ -462,6 +462,32 @@ fn gen_rec(rng: &mut Rng, prev: Option<&Rec>) -> Rec {
             }
         }
     }
+    if rng.chance(1, 150) {
+        // a line far longer than 64 KiB: real SCAN_DEPENDS lines list thousands of files
+        lines.retain(|l| !matches!(l.item, Item::ScanDepends { .. }));
+        let at = rng.urange(0, lines.len());
+        let item = if rng.chance(2, 3) {
+            let n = rng.urange(2500, 4000);
+            Item::ScanDepends {
+                items: (0..n).map(|i| format!("/usr/pkgsrc/mk/file{:05}.mk", i)).collect(),
+                seps: (0..n).map(|_| " ".to_string()).collect(),
+            }
+        } else {
+            let n = rng.urange(66_000, 80_000);
+            Item::Scalar {
+                key: rng.urange(1, 10),
+                val: "v".repeat(n),
+            }
+        };
+        lines.insert(
+            at,
+            Line {
+                item,
+                lead: String::new(),
+                trail: String::new(),
+            },
+        );
+    }
     Rec {
         pkgname: gen_pkgname(rng),
         name_lead: gen_ws(rng),
@@ -704,6 +730,9 @@ impl Property for C16 {
         if bytes.is_empty() {
             ctx.probe("empty-input");
         }
+        if bytes.split(|&c| c == b'\n').any(|l| l.len() > 65_536) {
+            ctx.probe("line-longer-than-64KiB");
+        }
         {
             let mut pos = 0usize;
             for (k, n) in &log.events {
@@ -880,45 +909,51 @@ impl Property for C16 {
         Ok(())
     }
 
-    fn shrink(&self, sc: &Sc) -> Vec<Sc> {
-        let mut out = Vec::new();
+    fn shrink(&self, sc: &Sc, emit: &mut dyn FnMut(Sc) -> bool) {
+        macro_rules! push {
+            ($e:expr) => {
+                if emit($e) {
+                    return;
+                }
+            };
+        }
         for r in shrink_vec(&sc.recs) {
-            out.push(Sc { recs: r, ..sc.clone() });
+            push!(Sc { recs: r, ..sc.clone() });
         }
         for s in shrink_vec(&sc.script) {
-            out.push(Sc { script: s, ..sc.clone() });
+            push!(Sc { script: s, ..sc.clone() });
         }
         if !sc.orphan.is_empty() {
             for o in shrink_vec(&sc.orphan) {
-                out.push(Sc { orphan: o, ..sc.clone() });
+                push!(Sc { orphan: o, ..sc.clone() });
             }
         }
         if sc.seam != Seam::Direct {
-            out.push(Sc { seam: Seam::Direct, ..sc.clone() });
+            push!(Sc { seam: Seam::Direct, ..sc.clone() });
         }
         for (ri, r) in sc.recs.iter().enumerate() {
             for l in shrink_vec(&r.lines) {
                 let mut s = sc.clone();
                 s.recs[ri].lines = l;
-                out.push(s);
+                push!(s);
             }
             if !r.name_lead.is_empty() || !r.name_trail.is_empty() {
                 let mut s = sc.clone();
                 s.recs[ri].name_lead.clear();
                 s.recs[ri].name_trail.clear();
-                out.push(s);
+                push!(s);
             }
             if r.pkgname != "p-1" {
                 let mut s = sc.clone();
                 s.recs[ri].pkgname = "p-1".into();
-                out.push(s);
+                push!(s);
             }
             for (li, l) in r.lines.iter().enumerate() {
                 if !l.lead.is_empty() || !l.trail.is_empty() {
                     let mut s = sc.clone();
                     s.recs[ri].lines[li].lead.clear();
                     s.recs[ri].lines[li].trail.clear();
-                    out.push(s);
+                    push!(s);
                 }
                 if let Item::Scalar { key, val } = &l.item {
                     if val.len() > 1 {
@@ -927,12 +962,11 @@ impl Property for C16 {
                             key: *key,
                             val: val.chars().take(1).collect(),
                         };
-                        out.push(s);
+                        push!(s);
                     }
                 }
             }
         }
-        out
     }
 
     fn sweep(&self, sc: &Sc, run: u64, tier: Tier) -> Vec<Sc> {
@@ -1034,6 +1068,7 @@ impl Property for C16 {
             "fault-bad-dependency",
             "fault-bad-location",
             "empty-input",
+            "line-longer-than-64KiB",
         ]
     }
 }
